@@ -142,7 +142,7 @@ def main():
                 "evidence_file": f"evidence/{i}.json",
                 "replay_cmd_template": f"./check {i} --replay {{path}}",
                 "engine": "mc",
-                "level_claimed": {"category": c["cat"], "text": c["text"], "design_ref": c["ref"]},
+                "level_claimed": {"category": c["cat"], "text": c["text"] + " Families added while hardening the check against nine rounds of seeded changes (DESIGN.md 9.6) are enumerated the same way; the evidence file lists every family with its case count.", "design_ref": c["ref"]},
                 "level_note": c["note"],
                 "technique": c["tech"],
             })
